@@ -466,6 +466,37 @@ def r11_5(ctx: Ctx):
     return out
 
 
+def r11_7(ctx: Ctx):
+    """R11.7 what a generation can contain: (a) the survivor selection of the SEA family draws from the parents and the offspring
+    of THIS call only - a population the engine keeps between calls (`self._elites`) re-enters individuals of older
+    generations; (b) the fitness cache answers only for the exact genome it stored - a key that loses information (str(),
+    rounding, hashing) hands a new genome the fitness of another one, so it is neither inherited nor newly evaluated."""
+    obs = []
+    m = ctx.prog.own_method("BaseSEA", "select_new_population")
+    sn = m.self_name()
+    held = sorted({x.attr for x in body_walk(m.node) if isinstance(x, ast.Attribute) and isinstance(x.ctx, ast.Load) and is_self_attr(x, None, sn) and any(isinstance(c, ast.Call) and isinstance(c.func, ast.Attribute) and c.func.attr in ("merge", "topk") and any(y is x for y in ast.walk(c)) for c in body_walk(m.node))})
+    written = sorted({t.attr for f in ctx.prog.functions_in(m.cls) for y in body_walk(f.node) if isinstance(y, ast.Assign) for t in y.targets if is_self_attr(t, None, f.self_name() or "self") and t.attr in held and f.name != "__init__"})
+    if written:
+        obs.append(ctx.ob("R11.7", m, m.node, status=VIOLATION, detail=f"select_new_population merges `self.{written[0]}`, a population the engine keeps from call to call, into the new generation: its individuals come from earlier generations, not from the generation immediately before", construct="selection-sources"))
+    else:
+        obs.append(ctx.ob("R11.7", m, m.node, detail="the selection draws only on the parents and offspring it is handed", construct="selection-sources"))
+    try:
+        gk = ctx.prog.own_method("NumpyCache", "get_key")
+    except Exception:
+        gk = None
+    if gk is None:
+        obs.append(ctx.ob("R11.7", None, None, subject="utils.cache.NumpyCache", loc="-", status=INCONCLUSIVE, detail="NumpyCache.get_key not found", construct="cache-key"))
+    else:
+        rets = [r for r in body_walk(gk.node) if isinstance(r, ast.Return) and r.value is not None]
+        gdefs = local_defs(gk)
+        t = canon(rets[0].value, gdefs) if len(rets) == 1 else "?"
+        xp = gk.params()[1] if len(gk.params()) > 1 else "x"
+        exact = t in (f"{xp}.tobytes()", f"tuple({xp})", f"tuple({xp}.tolist())", f"{xp}.data.tobytes()", f"np.ascontiguousarray({xp}).tobytes()", f"({xp}.dtype,{xp}.shape,{xp}.tobytes())", f"({xp}.shape,{xp}.tobytes())")
+        lossy = any(isinstance(c, ast.Call) and norm(c.func).split(".")[-1] in ("str", "repr", "array2string", "array_str", "round", "around", "hash", "format") for c in ast.walk(rets[0].value)) if len(rets) == 1 else False
+        obs.append(ctx.ob("R11.7", gk, rets[0] if rets else gk.node, status=OK if exact else VIOLATION if lossy else INCONCLUSIVE, detail="the cache key is the array's exact bytes" if exact else f"the cache key `{norm(rets[0].value)[:60] if rets else '?'}` " + ("loses information (str() of an array prints 8 significant digits; rounding / hashing collide): two different genomes share an entry, and the later one is handed the earlier one's fitness without ever being evaluated" if lossy else "is not recognisably the exact content of the genome"), construct="cache-key"))
+    return obs
+
+
 def r11_6(ctx: Ctx):
     """R11.6 only the deme itself records generations: nothing outside the deme's own methods writes `<deme>._history` (a
     generation list registered by other code - e.g. a repeated metaepoch - is not bred from the generation recorded before it)."""
@@ -474,4 +505,4 @@ def r11_6(ctx: Ctx):
     return foreign_history_writes(ctx, "R11.6", "the generations it registers were not bred from the generation recorded before them, nor newly evaluated")
 
 
-RULES = [("R11", r11, 12), ("R11.4", r11_4, 2), ("R11.5", r11_5, 16), ("R11.6", r11_6, 1)]
+RULES = [("R11", r11, 12), ("R11.4", r11_4, 2), ("R11.5", r11_5, 16), ("R11.6", r11_6, 1), ("R11.7", r11_7, 2)]
